@@ -414,6 +414,7 @@ struct Obs {
     err: String,
     unchanged: bool,
     status_invalid: bool,
+    lost: bool,
 }
 
 /// submit a probe through header check + chain service, observe, restore the context
@@ -424,11 +425,16 @@ fn submit_probe(n: &Node, b: &BlockView) -> Obs {
     let attached = after.tip == b.hash();
     let unchanged = after == before;
     let status_invalid = n.shared.get_block_status(&b.hash()) == ckb_shared::block_status::BlockStatus::BLOCK_INVALID;
+    let mut lost = false;
     if attached {
-        n.truncate_to(&before.tip).expect("truncate");
-        assert!(sig(n) == before, "truncate did not restore the context");
+        if n.shared.snapshot().is_main_chain(&before.tip) {
+            n.truncate_to(&before.tip).expect("truncate");
+            assert!(sig(n) == before, "truncate did not restore the context");
+        } else {
+            lost = true; // a side branch became canonical: the context cannot be restored
+        }
     }
-    Obs { attached, ok: r.is_ok(), err: r.err().unwrap_or_default(), unchanged, status_invalid }
+    Obs { attached, ok: r.is_ok(), err: r.err().unwrap_or_default(), unchanged, status_invalid, lost }
 }
 
 fn run_ctx(ci: usize, ctx: &ACtx, tx_cycles: u64, limit: usize, seed: u64) {
@@ -550,6 +556,10 @@ fn run_ctx(ci: usize, ctx: &ACtx, tx_cycles: u64, limit: usize, seed: u64) {
                 let o = submit_probe(&n, &b);
                 emit(json!({"probe": {"ctx": ci, "m": nblocks, "i": pi, "fam": pr.fam, "lab": pr.lab, "expect": pr.verdict, "attached": o.attached, "ok": o.ok,
                     "err": o.err, "unchanged": o.unchanged && n.tip().1 == tip_ctx, "status_invalid": o.status_invalid, "branch": true}}));
+                if o.lost {
+                    emit(json!({"context_lost": {"ctx": ci, "after": pr.fam}}));
+                    return;
+                }
                 if refused.is_none() && matches!(pr.fam.as_str(), "commit_window" | "dao" | "reward" | "extension") && !o.attached {
                     refused = Some(b);
                 }
